@@ -863,6 +863,9 @@ pub fn c20_labels(v: &View, l: &mut Vec<&'static str>) {
     if reads >= 2 {
         l.push("two_reads");
     }
+    if reads > 0 && v.handlers.values().flatten().any(|h| h.inner_ns >= 1_000_000_000) {
+        l.push("handler_over_1s_with_read");
+    }
     for a in 0..v.actors.len() {
         let av = &v.actors[a];
         let durs: HashSet<u64> = v.handlers.values().flatten().filter(|h| h.a == a).map(|h| h.inner_ns / 100_000).collect();
